@@ -210,7 +210,7 @@ func runC17(c *Ctx) {
 					if st, isSt := in.(*ssa.Store); isSt {
 						if fa, isFA := st.Addr.(*ssa.FieldAddr); isFA {
 							_, s := ownerOfFieldBase(fa.X.Type())
-							if s != nil && s.Field(fa.Field).Name() == "timeout" {
+							if s != nil && fieldNameOf(s.Field(fa.Field)) == "timeout" {
 								v, _ := p.constValue("pkg/p2p", "messageResponseTimeout")
 								okT = T(st.Val).String() == v
 							}
@@ -315,7 +315,7 @@ func runC17(c *Ctx) {
 				if st, isSt := in.(*ssa.Store); isSt {
 					if fa, isFA := st.Addr.(*ssa.FieldAddr); isFA {
 						_, s := ownerOfFieldBase(fa.X.Type())
-						if s != nil && s.Field(fa.Field).Name() == "ID" {
+						if s != nil && fieldNameOf(s.Field(fa.Field)) == "ID" {
 							okID = T(st.Val).String() == "p0"
 						}
 					}
@@ -394,7 +394,7 @@ func structTag(p *Program, pkgRel, name, field string) string {
 		return ""
 	}
 	for i := 0; i < st.NumFields(); i++ {
-		if st.Field(i).Name() == field {
+		if fieldNameOf(st.Field(i)) == field {
 			return st.Tag(i)
 		}
 	}
